@@ -43,6 +43,10 @@ func (d *Device) tick(kind string) {
 	}
 }
 
+// Event is a device event raised by a simulated component other than a reader (the generic
+// image actor's At).
+func (d *Device) Event(kind string) { d.tick(kind) }
+
 // Fault kinds at the end point.
 const (
 	EndEOF  = 0 // stream ends cleanly at End (the file is data[:End])
